@@ -765,10 +765,15 @@ def classify(minimal):
     return None
 
 
+def new_keys(ctx):
+    return len(ctx.violations) + len(ctx.known_hits)
+
+
 def random_histories(ctx):
     rng = ctx.rng
     n_hist = ctx.scale(40, 600)
     found = 0
+    base_keys = new_keys(ctx)
     for h in range(n_hist):
         hist = gen_history(rng, rng.choice([6, 10, 16, 24]))
         ctx.case({'history': hist[:6], 'len': len(hist)}, kind='oracle:warm-vs-cold')
@@ -786,7 +791,7 @@ def random_histories(ctx):
         if w != c:
             i = next(i for i, (a, b) in enumerate(zip(w, c)) if a != b)
             found += 1
-            if found <= 6: report_difference(ctx, hist, (i, w[i], c[i]), 'random history #%d (seed %d)' % (h, ctx.seed))
+            if found <= 40 and new_keys(ctx) - base_keys < 6: report_difference(ctx, hist, (i, w[i], c[i]), 'random history #%d (seed %d)' % (h, ctx.seed))
     ctx.count('histories', n_hist)
     flush_protocol(ctx)
 
@@ -847,6 +852,7 @@ def pair_corpus(ctx):
             for m in (MODS if ctx.thorough else rng.sample(MODS, 4)):
                 hists.append([list(a), list(m)] + ([['commit']] if m[0].startswith('db_insert') else []) + [list(a), ['end_rollback'], list(a), ['end']])
     found = 0
+    base_keys = new_keys(ctx)
     for h in hists:
         ctx.case({'history': h}, kind='oracle:pair-corpus')
         w, iw = run_history(h, cold=False)
@@ -858,7 +864,8 @@ def pair_corpus(ctx):
         if w != c:
             found += 1
             i = next(i for i, (x, y) in enumerate(zip(w, c)) if x != y)
-            if found <= 6: report_difference(ctx, h, (i, w[i], c[i]), 'pair corpus')
+            # every difference is shrunk and keyed (up to a budget); the run stops reporting after 6 DISTINCT keys, not after 6 differences of one kind
+            if found <= 60 and new_keys(ctx) - base_keys < 6: report_difference(ctx, h, (i, w[i], c[i]), 'pair corpus')
     ctx.count('pair-corpus-histories', len(hists))
 
 
